@@ -175,7 +175,7 @@ def budget_for(tier):
     b = os.environ.get("PYVC_BUDGET")
     if b:
         return int(b)
-    return 12 if tier == "quick" else 90
+    return 30 if tier == "quick" else 120
 
 
 def verify_contracts(run, contracts, registry, mutate=None, collect=True):
